@@ -91,7 +91,10 @@ def run(ctx):
     throwers = {}  # (fn id, callee name, canon(args)) -> dict
     ncontexts = 0
 
+    ctx_inits = {}  # call chain (tuple) -> facts inherited at the entry of its last function
+
     def on_context(fn, env, envkey, init, chain, IN, before):
+        ctx_inits[tuple(chain)] = {logic.show(f0) for f0 in (init or ())}
         if not fn.file.startswith("/repo/"):
             return
         for bid in fn.blocks:
@@ -155,7 +158,14 @@ def run(ctx):
             # checked reason: the facts guarding the raise mention no parse input (only declaration state)
             input_free = True
             for chain, fl in s["reach"]:
+                # facts the exempt function inherited from its callers are path conditions of parse(), not guards of this raise
+                idx = max(i for i, c in enumerate(chain) if any(c.startswith(q + "(") or c.startswith(q + "::") for q in exempt))
+                # (the first frame of the exempt function on the chain)
+                first = min(i for i, c in enumerate(chain) if any(c.startswith(q + "(") for q in exempt)) if any(any(c.startswith(q + "(") for q in exempt) for c in chain) else idx
+                inherited = ctx_inits.get(tuple(chain[:first + 1]), set())
                 for f in fl:
+                    if f in inherited:
+                        continue
                     if re.search(r"args|argv|\(\*it\)|env_value|getenv", f):
                         input_free = False
             if input_free:
@@ -287,7 +297,7 @@ def run(ctx):
     ctx.assume("allocation failure, stack exhaustion and regex_error of the complexity/stack kind inside std::regex_match are outside the claim")
     # ---- R04.5: no spurious user-input error - two structural necessary conditions of "exactly when a documented condition holds"
     ctx.rule("R04.5", "no spurious error: every parse starts from emptied value state (R14.2) and an option claims a token only under its own name or letter (R01.5, R01.7, R01.8)")
-    if ctx.prop == "C04":
+    if ctx.prop == "C04" and not getattr(ctx, "_sharing", False):
         from .common import share
         share(ctx, "C14", ("R14.2",), "R04.5", "reset obligations shared with C14", 3)
         share(ctx, "C01", ("R01.5", "R01.7", "R01.8"), "R04.5", "matching obligations shared with C01", 6)
